@@ -166,6 +166,7 @@ class _Content:
                 return
             if isinstance(item, BaseException):
                 raise item
+            resp.consumed += 1
             yield item
 
 
@@ -182,6 +183,8 @@ class Response:
         self._q: asyncio.Queue[Any] | None = asyncio.Queue() if stream else None
         self.content = _Content(self)
         self.on_client_close: Callable[[], None] | None = None
+        self.fed: list[tuple[Any, Any, Any, Any]] = []     # (type, uid, rv, error code) of every line put on the wire, in order
+        self.consumed = 0                                   # how many of them the client has actually read (the rest was in flight when it hung up)
 
     async def json(self) -> Any:
         if self._text is not None:
@@ -218,6 +221,9 @@ class Response:
     def feed(self, obj: Any) -> None:
         if not self.closed and self._q is not None:
             self._q.put_nowait((json.dumps(obj) + '\n').encode())
+            meta = (obj.get('object') or {}).get('metadata') or {} if isinstance(obj, dict) else {}
+            code = (obj.get('object') or {}).get('code') if isinstance(obj, dict) and obj.get('type') == 'ERROR' else None
+            self.fed.append((obj.get('type') if isinstance(obj, dict) else None, meta.get('uid'), meta.get('resourceVersion'), code))
 
     def eof(self) -> None:
         if not self.closed and self._q is not None:
@@ -376,9 +382,9 @@ class WatchStream:
 
 class FakeKube:
     def __init__(self, resources: list[dict[str, Any]] | None = None, *, namespaces: tuple[str, ...] = ('ns1',),
-                 del_keep_finalizer: bool = True, del_bump_patch_rv: bool = True) -> None:
+                 del_keep_finalizer: bool = True, del_bump_patch_rv: bool = True, rv_start: int = 1000) -> None:
         self.resources: list[dict[str, Any]] = list(BASE_RESOURCES) + list(resources or [])
-        self.rv = 1000
+        self.rv = rv_start       # resource versions are opaque strings to clients: start low to cross 99->100, 999->1000 within a run
         self.objs: dict[tuple[str, str | None, str], dict[str, Any]] = {}
         self.log: dict[str, list[tuple[int, dict[str, Any]]]] = {}
         self.compacted: dict[str, int] = {}     # plural -> watches from rv < this get 410
